@@ -59,10 +59,12 @@ type Run struct {
 	Info    map[string]interface{} // scenario parameters (sample output)
 	NonTriv bool
 
-	cleanup      []func()
-	hook         *spinHook
-	bubble       string // id of this run's synctest bubble
-	bodyDone     atomic.Bool
+	cleanup  []func()
+	hook     *spinHook
+	bubble   string // id of this run's synctest bubble
+	bodyDone atomic.Bool
+	// DgramFilter, if set, sees every datagram about to be delivered under any policy; true = consumed.
+	DgramFilter  func(seq int) bool
 	yields       int
 	MaxSteps     int
 	peers        []*Peer
